@@ -300,6 +300,7 @@ def check_nd(case, ctx: Ctx):
         return
     kept = [a for a in range(d) if not (a < len(parts) and parts[a][0] == "int")]
     want_f, want_e = freq[tuple(full)], err[tuple(full)]
+    require(hasattr(r, "ndim") and hasattr(r, "frequencies"), "not_a_histogram", f"{what} returned {type(r).__name__}: {repr(r)[:100]}")
     require(r.ndim == len(kept), "ndim", f"{r.ndim} vs {len(kept)}")
     want_cls = {1: "Histogram1D", 2: "Histogram2D"}.get(len(kept), "HistogramND")
     if len(kept) < d:
